@@ -324,7 +324,7 @@ fn enumerated() -> Vec<Scenario> {
 }
 
 pub fn run(ctx: &Ctx) -> i32 {
-    let (shards, cases) = ctx.tier.pick((8, 2500), (64, 25_000));
+    let (shards, cases) = ctx.tier.pick((16, 10000), (64, 25_000));
     let (mut stats, mut viol) = run_shards(ctx, "strict", shards, cases, || scenario_strategy(false), |sc, st| check(sc, st, false));
     let (s2, v2) = run_shards(ctx, "transitions", shards, cases / 2, || scenario_strategy(true), |sc, st| check(sc, st, true));
     stats.merge(s2);
